@@ -46,7 +46,7 @@ func newMachine() *rig.Machine {
 }
 
 func run(c *rig.Ctx) {
-	c.Require("halt_runs", "halt_idle_cycles", "halt_wake_dispatch", "halt_wake_ime0", "halt_bug_runs", "unenabled_request_runs", "timer_wake_runs", "rom_halt_idle_cycles")
+	c.Require("halt_runs", "halt_idle_cycles", "halt_wake_dispatch", "halt_wake_ime0", "halt_bug_runs", "unenabled_request_runs", "timer_wake_runs", "rom_halt_idle_cycles", "key_press_while_halted_runs", "program_key_presses")
 	m := newMachine()
 	var follow [][]byte
 	for op := 0; op < 256; op++ {
@@ -167,7 +167,17 @@ func run(c *rig.Ctx) {
 					m.Mem.Write(0xff07, 0x05)
 					c.Count("timer_wake_runs", 1)
 				}
+				// a key going down while the CPU idles (the front end's OnInput callback: it ends
+				// STOP, and must leave HALT alone - only an enabled request ends HALT)
+				keyAt := -1
+				if pend == 0 && idle >= 2 && (rep+idle)%5 == 3 {
+					keyAt = 1 + idle/3
+					c.Count("key_press_while_halted_runs", 1)
+				}
 				for cyc := 0; cyc < idle+70; cyc++ {
+					if cyc == keyAt {
+						m.CPU.OnInput()
+					}
 					if mode == "request" && pend == 0 {
 						if unenabled != 0 && cyc == 1+idle/2 {
 							f.Inject(unenabled)
@@ -210,6 +220,10 @@ func run(c *rig.Ctx) {
 	nprog := c.N(200, 4000)
 	c.Part("programs", nprog, func(i int64, r *rig.Rng) {
 		p := prog.Generate(r, prog.Options{Interrupts: true, Hardware: i%3 == 0})
+		if i%6 == 5 {
+			p = prog.IdleLoops(r) // wait-for-interrupt loops instead of HALT
+			c.Count("idle_loop_programs", 1)
+		}
 		pm := rig.MustNew(p.ROM, rig.Opts{})
 		f := lockstep.New(pm)
 		f.Violate = func(prop, class, msg string) {
@@ -217,7 +231,16 @@ func run(c *rig.Ctx) {
 				c.Violate("program-"+class, msg, map[string]any{"program": p.Describe()})
 			}
 		}
-		f.RunCycles(int(c.N(20000, 60000)))
+		// key presses arrive at random times (OnInput is what the front end calls)
+		for n := int(c.N(20000, 60000)); n > 0; n-- {
+			if r.Chance(1, 700) {
+				pm.CPU.OnInput()
+				c.Count("program_key_presses", 1)
+			}
+			if !f.Cycle() {
+				break
+			}
+		}
 		c.Count("program_idle_cycles", f.IdleCycles)
 		c.Count("program_halt_bugs", f.HaltBugs)
 		c.Eval(f.Instrs + f.IdleCycles)
